@@ -255,7 +255,7 @@ func buildUpdate(o *ReqOp, x *conc.Ctx, pkg *reg.Pkg, jsonScalars bool) (*gpb.Up
 		var as []string
 		json.Unmarshal(o.V, &as)
 		var cvs []string
-		var js []interface{}
+		js := []interface{}{}
 		for _, a := range as {
 			cv, err := x.Value(pos, a)
 			if err != nil {
